@@ -16,6 +16,8 @@ pub fn main() {
   if args.len() < 2 { eprintln!("usage: gbverif tmpl-all | replay-isa <b0> <b1|-> <hex>... | replay-jit ..."); std::process::exit(2); }
   match args[1].as_str() {
     "tmpl-all" => tmpl_all(),
+    "tmpl-lens" => tmpl_lens(&args[2..]),
+    "tmpl-probe" => tmpl_probe(&args[2..]),
     "replay-isa" => replay_isa(&args[2..]),
     "replay-strs" => replay_strs(&args[2..]),
     #[cfg(unix)]
@@ -50,7 +52,10 @@ fn tmpl_all() {
   crate::bus::install_hooks();
   let emitter = crate::emitter::Emitter::new(crate::jit::MEMPTR as *const mem::MemoryAreas);
   for (b0, cb) in all_encodings() {
-    for (x, y) in probes.iter() {
+    for (pi, (x, y)) in probes.iter().enumerate() {
+      // a different memory content for every probe: a byte the emitter copies out of guest memory at translation time
+      // then shows up as "not a function of the immediates" instead of looking like a constant
+      crate::bus::restore((0, 0, 0, 0, (0x3d * (pi as u32) + 0x17) as u8));
       let bytes = [b0, cb.unwrap_or(*x), *y];
       let (op, len, _) = crate::decoder::decode(&bytes);
       let mut buf = [0u8; 512];
@@ -124,4 +129,40 @@ fn replay_serial(args: &[String]) {
   let ok = got == &want[..];
   println!("{{\"inputs\":{{\"latch_before\":{},\"control_before\":{},\"data\":{},\"control\":{}}},\"emitted\":{:?},\"expected\":{:?},\"failed_checks\":[{}]}}",
     d0, c0 & 0x7f, d, ctl, got, want, if ok { String::new() } else { "\"C18: the bytes on the host stream are not exactly the latched data byte\"".to_string() });
+}
+
+
+fn emit_one(emitter: &crate::emitter::Emitter, b0: u8, x: u8, y: u8) -> Vec<u8> {
+  let bytes = [b0, x, y];
+  let (op, len, _) = crate::decoder::decode(&bytes);
+  let mut buf = [0u8; 512];
+  let n = emitter.encode_op(op, len, &mut buf);
+  buf[..n].to_vec()
+}
+/// tmpl-lens <b0>: length of the emitted code for every 16-bit immediate w = b2 << 8 | b1, as runs "r <first> <last> <len>"
+fn tmpl_lens(a: &[String]) {
+  let b0 = u8::from_str_radix(&a[0], 16).unwrap();
+  crate::bus::install_hooks();
+  let emitter = crate::emitter::Emitter::new(crate::jit::MEMPTR as *const crate::mem::MemoryAreas);
+  let mut start = 0u32; let mut cur = emit_one(&emitter, b0, 0, 0).len();
+  for w in 1..=0xffffu32 {
+    let l = emit_one(&emitter, b0, w as u8, (w >> 8) as u8).len();
+    if l != cur { println!("r {} {} {}", start, w - 1, cur); start = w; cur = l; }
+  }
+  println!("r {} {} {}", start, 0xffff, cur);
+}
+/// tmpl-probe <b0> <w>...: emitted bytes for the given immediates (same line format as tmpl-all)
+fn tmpl_probe(a: &[String]) {
+  let b0 = u8::from_str_radix(&a[0], 16).unwrap();
+  crate::bus::install_hooks();
+  let emitter = crate::emitter::Emitter::new(crate::jit::MEMPTR as *const crate::mem::MemoryAreas);
+  println!("fn rb={:x} wb={:x} ww={:x} rw={:x} pw={:x}", crate::mem::memory_read_byte as usize, crate::mem::memory_write_byte as usize,
+           crate::mem::memory_write_word as usize, crate::mem::memory_read_word as usize, crate::mem::memory_push_word as usize);
+  for (pi, ws) in a[1..].iter().enumerate() {
+    crate::bus::restore((0, 0, 0, 0, (0x3d * (pi as u32) + 0x17) as u8));
+    let w: u32 = ws.parse().unwrap();
+    let (x, y) = (w as u8, (w >> 8) as u8);
+    let hex: String = emit_one(&emitter, b0, x, y).iter().map(|b| format!("{:02x}", b)).collect();
+    println!("t {:02x} - {:02x} {:02x} {}", b0, x, y, hex);
+  }
 }
